@@ -8,5 +8,7 @@ CONSTANTS
   CostSet <- CostsDecl
   Modes <- AllModes
   CheckDecl = TRUE
+  Given <- NoGiven
+  WithRange = TRUE
 INVARIANT OptimalNextIsDecl
 CHECK_DEADLOCK FALSE
